@@ -731,6 +731,9 @@ func runC11(c *Ctx) {
 			"validation answers not-found when the chosen target is REST and the method has no route target", "validation no longer refuses a REST target for a method without a route target: the REST server handler would dereference nil")
 	}
 
+	// ---------------------------------------------------------------- C11.11
+	runC11Presized(c)
+
 	// ---------------------------------------------------------------- C11.10
 	c.Rule("C11.10", "a declared content length is non-negative or the -1 sentinel", 1)
 	ecl := p.MustFunc("httpExtractContentLength")
@@ -1039,4 +1042,113 @@ func envelopingCloseInvariant(p *Prog, a *nilAnalysis, cl nilCell) (bool, string
 	}
 	// the Close call itself must be under both facts
 	return true, "the invoke is guarded by remainingBytes == -1 && mustReleaseCurrent; mustReleaseCurrent=true is stored either where clientEnveloper is known non-nil (initialiser, after its nil early-return) or together with a non-negative remainingBytes (trailer buffer), so the conjunction implies a client enveloper"
+}
+
+// runC11Presized: C11.11 (defect D19).  A function that pre-sizes its result slice from the
+// number of separators in a string (make([]T, strings.Count(s, sep)+1)) and fills it while
+// splitting s must visit every element, empty ones included: if the filling loop may stop because
+// the REMAINDER of s is empty, "a." yields a slice whose last slot was never filled - a nil
+// interface that the callers dereference.  The loop has to stop on 'no further separator'.
+func runC11Presized(c *Ctx) {
+	p := c.P
+	c.Rule("C11.11", "a result slice pre-sized by counting separators is filled for every element: the splitting loop does not stop on an empty remainder", 0)
+	n := 0
+	for _, fn := range p.Funcs {
+		if !p.inScope(fn) {
+			continue
+		}
+		for _, in := range allInstrs(fn) {
+			mk, ok := in.(*ssa.MakeSlice)
+			if !ok {
+				continue
+			}
+			// length derives from strings.Count(s, ...)
+			var src ssa.Value
+			for _, l := range Origins(mk.Len) {
+				if l.Kind == "call" && IsCallTo(l.Call, "strings.Count", "bytes.Count") {
+					src = l.Call.Common().Args[0]
+				}
+			}
+			if src == nil {
+				continue
+			}
+			// only slices of interface / pointer elements can hold a nil that is dereferenced
+			et := mk.Type().Underlying().(*types.Slice).Elem()
+			if _, isI := et.Underlying().(*types.Interface); !isI {
+				if _, isP := et.Underlying().(*types.Pointer); !isP {
+					continue
+				}
+			}
+			returned := false
+			for _, ref := range *mk.Referrers() {
+				if _, isRet := ref.(*ssa.Return); isRet {
+					returned = true
+				}
+			}
+			if !returned {
+				continue
+			}
+			n++
+			// branches on "<string derived from src> == / != \"\"" that lie on a cycle with an element store
+			var bad []string
+			for _, x := range allInstrs(fn) {
+				iff, ok := x.(*ssa.If)
+				if !ok {
+					continue
+				}
+				b, ok := iff.Cond.(*ssa.BinOp)
+				if !ok || (b.Op != token.EQL && b.Op != token.NEQ) {
+					continue
+				}
+				if s2, isS := ConstString(b.Y); !isS || s2 != "" {
+					continue
+				}
+				if !isStringType(b.X.Type()) {
+					continue
+				}
+				derived := false
+				seen := map[ssa.Value]bool{}
+				var walk func(v ssa.Value, d int)
+				walk = func(v ssa.Value, d int) {
+					if seen[v] || d > 6 {
+						return
+					}
+					seen[v] = true
+					if v == src {
+						derived = true
+						return
+					}
+					switch y := v.(type) {
+					case *ssa.Phi:
+						for _, e := range y.Edges {
+							walk(e, d+1)
+						}
+					case *ssa.Slice:
+						walk(y.X, d+1)
+					}
+				}
+				walk(b.X, 0)
+				if !derived {
+					continue
+				}
+				// is the test inside the filling loop (on a cycle)?
+				onCycle, _ := PathQuery{Target: func(y ssa.Instruction) bool { return y == ssa.Instruction(iff) }}.Search(fn, iff)
+				if onCycle {
+					bad = append(bad, p.Pos(iff.Pos()))
+				}
+			}
+			c.Check(len(bad) == 0, "C11.11", FuncName(fn), "presized-slice-filled", mk.Pos(),
+				"the loop that fills the pre-sized slice does not terminate on an empty remainder of the string being split",
+				"the slice is sized by counting separators but the filling loop stops when the remainder is empty ("+joinStr(bad)+"): a trailing separator leaves the last slot nil and the caller dereferences it (panic on a request like '?name.=x')")
+		}
+	}
+	if n == 0 {
+		c.Trivial("C11.11", "*", "presized-slice-filled", token.NoPos, "no result slice is pre-sized by counting separators")
+	}
+}
+
+func allInstrs(fn *ssa.Function) []ssa.Instruction {
+	var out []ssa.Instruction
+	ForEachInstr(fn, func(in ssa.Instruction) { out = append(out, in) })
+	return out
 }
